@@ -58,6 +58,8 @@ type SessResult struct {
 	Wedged   bool       `json:"wedged"`
 	Crashed  bool       `json:"crashed"` // the worker process died while running this session
 	CrashOut string     `json:"crash_out,omitempty"`
+	Snap     []string   `json:"snap"`  // snapshot-isolation discrepancies (C13)
+	Marks    [][2]int   `json:"marks"` // (step index, lines written so far) at every successful barrier
 	Connect  string     `json:"connect"` // how Connect returned: "" (still running at the end), "nil", "errevent:<text>", "err:<text>"
 	Debug    string     `json:"debug,omitempty"`
 	Out      string     `json:"out,omitempty"`
@@ -296,6 +298,7 @@ func runSession(s *Session) *SessResult {
 		s.RegLines = registrationCount(s.Cfg)
 	}
 	waitWritten(s.RegLines, 20*time.Second)
+	snaps := &snapState{}
 	nbar := 0
 	closed := false
 	var getConnectNow func(err error)
@@ -367,7 +370,7 @@ func runSession(s *Session) *SessResult {
 			return false
 		}
 	}
-	for _, st := range s.Steps {
+	for si, st := range s.Steps {
 		if res.Wedged {
 			break
 		}
@@ -387,6 +390,8 @@ func runSession(s *Session) *SessResult {
 				}
 			} else if !getterAlive() {
 				res.Wedged = true
+			} else {
+				res.Marks = append(res.Marks, [2]int{si, countWritten()})
 			}
 		case "waitnick":
 			dl := time.Now().Add(15 * time.Second)
@@ -413,6 +418,10 @@ func runSession(s *Session) *SessResult {
 			}
 		case "close":
 			c.Close()
+		case "snap":
+			if !s.Cfg.DisableTracking {
+				snaps.op(c, st.Arg, res)
+			}
 		case "sleep":
 			time.Sleep(30 * time.Millisecond)
 		case "waitwritten":
